@@ -32,7 +32,9 @@ RV = [20, 10]
 QV = ["v", "u"]
 # (neither ascending nor descending: the first and last values are not the
 # extremes of any prefix of length >= 3)
-ZNUM = [2.0, 10.0, 0.5, 4.5, 12.5, 6.5, 3.0, 8.0, 9.5, 5.0, 11.0, 7.0]
+# (not monotonic; two values that only differ beyond the fourth decimal)
+ZNUM = [2.0, 10.0, 0.512345, 0.512349, 12.5, 6.5, 3.0, 8.0, 9.5, 5.0, 11.0,
+        7.0]
 ZSTR = ["q", "p", "zz", "A", "b", "c", "d", "e", "f", "g", "h", "i"]
 
 
@@ -53,6 +55,8 @@ def cases(tier, seed):
                {"colors": True, "zlims": (0.0, None)},
                {"colors": True, "zlims": (None, 20.0)},
                {"colors": True, "vmin": 1.0, "vmax": 4.0},
+               {"colors": True, "vmin": 0.0, "vmax": 4.0},
+               {"colors": True, "vmin": -4.0, "vmax": 0.0},
                {"xlog": True, "ylog": True}, {"colors": True, "legend": True},
                {"colors": True, "colorbar": True, "colormap": "viridis"}]
     for kind in ("lineplot", "scatter"):
@@ -96,6 +100,9 @@ def cases(tier, seed):
                         if variant == "xvar2d":
                             o = {k: v for k, v in o.items()
                                  if k in ("markers", "lines", "xlog", "ylog")}
+                        if variant in ("c", "gridc") and o.get("colormap_log"):
+                            # (the colour variable starts at zero: no log)
+                            o = {}
                         if variant in ("c", "gridc") and "colors" in o:
                             o = {k: v for k, v in o.items() if k != "colors"}
                         yield {"kind": kind, "nx": nx, "nz": nz, "mask": mask,
@@ -203,7 +210,8 @@ def make_line_ds(case):
         xv[idx] = XS[idx[0]] + 0.01 * idx[1] + 0.001 * idx[2] + 0.0001 * idx[3]
     data["xv"] = (["z", "x", "r", "q"], xv.transpose(1, 0, 2, 3))
     data["cline"] = (("z",), np.array([1.5 + 2.0 * i for i in range(nz)]))
-    data["cpt"] = (dims, 1.0 + np.arange(y.size).reshape(shape) * 0.5)
+    # (the smallest colour value is exactly zero)
+    data["cpt"] = (dims, np.arange(y.size).reshape(shape) * 0.5)
     if case["variant"] == "multi":
         for v in range(nz):
             data["y%d" % v] = (["x", "r", "q"], y[:, v])
